@@ -9,6 +9,8 @@ CLAIMED = {
          "CFG dominance / fence / guard rules + enumerated index tables over work_stealing_deque.c and the scheduler"),
  "C08": ("fd-table bounds followed inter-procedurally from the libc shims, should_block truth table, F_SETFL/FIONBIO mode tables, retry-template agreement of all shims under enumerated scenarios, fd>=0 comparisons, shim pointer resolution, close/poller lock and order rules",
          "inter-procedural forced-branch reachability over enumerated descriptor classes and scenarios (BOUNDS / TABLE / SIBLING rules) on fiber_io.c and fiber_event_native.c"),
+ "C09": ("sleep registration under the sleep lock with deferred unlock, poller lock/unlink/no-touch rules, strict expiry comparison table, deadline arithmetic evaluated with C integer widths over boundary durations, unit conversion and routing tables of sleep/usleep/nanosleep",
+         "CFG lock-pair / dominance rules, reaching-definition NOTOUCH dataflow, enumerated arithmetic tables with C widths"),
  "C10": ("fairness certificate: push/pop deque fields differ, swap only on empty, successor re-queue",
          "CFG/AST who-pushes-where + guarded-swap rules over the scheduler"),
 }
